@@ -255,12 +255,12 @@ func init() {
 				fatal(err)
 			}
 			n++
-			// thorough: histories of length 5 are many - every fourth is replayed, and the query family is
+			// thorough: histories of length 5 are many - every sixth is replayed, and the query family is
 			// observed after the last operation only (every prefix is the end of a shorter history's sibling)
-			if c.thorough() && n%4 != 0 {
+			if c.thorough() && n%6 != 0 {
 				return
 			}
-			shard := (n / 4) % c.shards
+			shard := (n / 6) % c.shards
 			if !c.thorough() {
 				shard = n % c.shards
 			}
@@ -295,7 +295,7 @@ func init() {
 
 	// (T) seeded random histories of hundreds of operations over 16 distinct points, in three coordinate maps
 	register("qtrandom", func(c *ctx) {
-		nh := c.pick(48, 480)
+		nh := c.pick(48, 192)
 		for hI := 0; hI < nh; hI++ {
 			shard := hI % c.shards
 			// bound [0,1024]^2 (or an offset one); points on midlines of several depths, on the bound, duplicates
